@@ -169,7 +169,7 @@ static void run_case(int ntok, char **t)
     if (atoi(t[1])) SPIFOPT_FLAGS_SET(SPIFOPT_SETTING_PREPARSE);
     if (atoi(t[2])) SPIFOPT_FLAGS_SET(SPIFOPT_SETTING_REMOVE_ARGS);
 
-    alarm(10);
+    alarm(1);
     helped = setjmp(help_jmp);
     if (!helped) {
         spifopt_parse(argc, argv);
@@ -196,5 +196,11 @@ static void run_case(int ntok, char **t)
     printf(" A=");
     if (alog_len) fwrite(alog, 1, alog_len, stdout); else putchar('-');
     printf(" argv=");
-    for (k = 0; k <= argc; k++) { if (k) putchar(','); put_str(argv[k]); }
+    /* "spell" lines: what the caller sees, i.e. up to the first NULL (the ideal reading says
+     * nothing about the stale slots behind it) */
+    for (k = 0; k <= argc; k++) {
+        if (k) putchar(',');
+        put_str(argv[k]);
+        if (!argv[k] && t[0][0] == 's') break;
+    }
 }
